@@ -124,13 +124,14 @@ CHECKS = {
                   "loop/clock, differential against a reference model, plus deep-vs-shallow seam conformance",
         text="Every history over {endpoint send reliable/unreliable with appended acks for none/oldest/newest/all pending receipts, forwarded or dropped; standalone "
              "PacketAck; endpoint retransmission; proxy injection reliable/unreliable; addon take() of a reliable packet with its copy re-sent at once or after "
-             "any later events; StartPingCheck with OldestUnacked sent or unsent; tick short/past/exhaust} per direction is executed on a real ProxiedCircuit "
+             "any later events, and take() of an already finalized packet (after its own drop_message, or after its own forward) with the copy re-sent; "
+             "the 'all pending' ack choice in receipt, descending and rotated order (appended, on dropped packets, in PacketAck bodies); StartPingCheck with OldestUnacked sent or unsent; tick short/past/exhaust} per direction is executed on a real ProxiedCircuit "
              "(real deserializer in, real serializer out) to depth 5 with <=2 deviations and depth 4 with <=3 (quick), plus 5/<=3, 6/<=2 and 7/0 (thorough); the same "
              "histories to depth 3 (4) are replayed through InterceptingLLUDPProxyProtocol.datagram_received with a real Session, a drop addon and the attempt_resends task and must "
              "emit identical datagrams. The oracle reads only the decoded datagrams handed to the transport and the futures of send_reliable, one clause per sentence.",
         note="Endpoints number packets 1,2,3.., ack only reliable packets they received, retransmit only their own unacked reliable packets; delivery to endpoints is "
              "lossless and instant (late/lost acks via ack-selection choices); retry budget and interval read from the code; one poll of slack at the interval "
-             "boundary; take and ping weigh 2 in the deviation bound, only reliable packets are taken, the rewritten OldestUnacked is recorded in the outcome "
+             "boundary; take and ping weigh 2 in the deviation bound, only reliable packets are taken, a re-sent copy of a taken packet must show no acknowledgement at all, the rewritten OldestUnacked is recorded in the outcome "
              "signature but not judged; deep-seam tick(exhaust) is polled one poll before/at/after each instant the model expects something due; not covered: ID wrap, "
              "10000-window eviction, dropping a standalone PacketAck; hmc.refwire, a 20-line decoder, "
              "hmc.vloop and the hand-written world clone (re-validated by full replay on every 53rd state) trusted."),
